@@ -313,7 +313,11 @@ def journal_scenario(rng, work, k, mode='short', big=False):
     files = [{'path': os.path.join(d, 'u.journal'), 'arg': 'u.journal', 'kind': 'j', 'base': 'u.journal'}]
     extra = ['--journal-output', mode]
     if big:
-        extra += ['-b', '@+40s']
+        # only the first 40 seconds of the big journal (an absolute bound: `@+40s` needs the other bound to be set)
+        rc0, out0, _, _ = e2e.s4(['-t', '+00:00', '--color', 'never', '--journal-output', 'export', 'u.journal'], cwd=d, timeout=600)
+        first = JRT_RE.search(out0)
+        t0 = int(first.group(1)) // 1_000_000 if first else 0
+        extra += ['-b', fmt_dt((t0 + 40) * 1_000_000_000, 0, '%Y%m%dT%H%M%S')]
     sc = Scenario('journal-%s%d' % (mode, k), files, extra_args=extra)
     sc.cwd = d
     # instants: from the export rendering of the same entries (same order)
